@@ -113,6 +113,32 @@ type failingBody struct {
 	left int
 }
 
+// stallingBody: the first Read waits (virtual time) before anything arrives; Close releases a waiting Read
+type stallingBody struct {
+	io.ReadCloser
+	stall time.Duration
+	once  sync.Once
+	done  chan struct{}
+}
+
+func (b *stallingBody) Read(p []byte) (int, error) {
+	if b.stall > 0 {
+		d := b.stall
+		b.stall = 0
+		select {
+		case <-time.After(d):
+		case <-b.done:
+			return 0, errors.New("verif: read on closed body")
+		}
+	}
+	return b.ReadCloser.Read(p)
+}
+
+func (b *stallingBody) Close() error {
+	b.once.Do(func() { close(b.done) })
+	return b.ReadCloser.Close()
+}
+
 var errBodyFail = errors.New("verif: scripted body failure")
 var errOrigin = errors.New("verif: scripted origin error")
 
@@ -187,6 +213,9 @@ func buildResponse(req *http.Request, rp *Reply, n, k int) (*http.Response, stri
 	}
 	if rp.BodyFail >= 0 && body != "" {
 		resp.Body = &failingBody{r: resp.Body, left: rp.BodyFail}
+	}
+	if rp.BodyStallNs > 0 && body != "" {
+		resp.Body = &stallingBody{ReadCloser: resp.Body, stall: time.Duration(rp.BodyStallNs), done: make(chan struct{})}
 	}
 	if rp.NilHdr && len(resp.Header) == 0 {
 		resp.Header = nil
